@@ -172,7 +172,13 @@ def witnesses(names, p0, job):
 
 def jobs(tier, seed):
     out = []
-    for s in specs():
+    sp = specs()
+    if tier == "thorough":
+        import random
+        rng = random.Random(10000 + seed)
+        sp += [catalog.random_heat_spec(rng, name="rand_heat%d_s%d" % (i, seed)) for i in range(16)]
+        sp += [catalog.random_loop_spec(rng, name="loop_rand%d_s%d" % (i, seed)) for i in range(8)]
+    for s in sp:
         loop = s["name"].startswith(("w_circ", "loop"))
         for mode in (("sequential", "bidirectional") if loop else ("sequential",)):
             for numba in (False, True):
